@@ -429,7 +429,9 @@ func sideTimeOnlyLogger(p *core.Program, f *core.Func, os OrderSource) (bool, st
 }
 
 func runC04(p *core.Program, r *core.Report) {
-	r.Floor("A2", 20)
+	// replacing a hand-written collect-and-sort by slices.Sorted(maps.Keys()) keeps a source (I2);
+	// flattening a loop over a set into a membership test removes one: the floor only guards against a blind enumerator
+	r.Floor("A2", 14)
 	for _, f := range p.Funcs() {
 		for _, os := range orderSources(f) {
 			c04Classify(p, r, f, os)
